@@ -218,7 +218,11 @@ func runC02(c *Ctx) {
 		}
 		// ---- C02.3 field reads bypass Fn
 		okBranch := false
-		for _, b := range bps.Blocks {
+		var bpsBlocks []*ssa.BasicBlock
+		for _, f2 := range family(L, bps) {
+			bpsBlocks = append(bpsBlocks, f2.Blocks...)
+		}
+		for _, b := range bpsBlocks {
 			for _, in := range b.Instrs {
 				al, ok := in.(*ssa.Alloc)
 				if !ok {
@@ -241,33 +245,38 @@ func runC02(c *Ctx) {
 	// Struct markers never become suppliers by themselves
 	if ng := genFn(c, "C02.3", "NewGraph"); ng != nil {
 		ok := false
-		for _, b := range ng.Blocks {
-			if len(b.Instrs) == 0 {
+		for _, fam := range family(L, ng) {
+			if fam.Parent() != nil {
 				continue
 			}
-			iff, isIf := b.Instrs[len(b.Instrs)-1].(*ssa.If)
-			if !isIf {
-				continue
-			}
-			s := newSym(L, map[string]bool{})
-			s.maxD = 0
-			t := strings.Join(s.eval(iff.Cond), "|")
-			if strings.Contains(t, "ProviderSpec.Type(") && strings.Contains(t, `"struct"`) {
-				// the true edge must not reach a supplier-map insert without returning to the loop header
-				reach := false
-				for _, b2 := range ng.Blocks {
-					for _, in := range b2.Instrs {
-						if mu, isMu := in.(*ssa.MapUpdate); isMu && strings.Contains(mu.Map.Type().String(), "fnProvider") {
-							if reachableNoLoop(iff.Block().Succs[0], b2, iff.Block().Idom()) && b2.Dominates(b2) {
-								// only inserts inside the same loop iteration matter
-								if iff.Block().Dominates(b2) && !iff.Block().Succs[1].Dominates(b2) {
-									reach = true
+			for _, b := range fam.Blocks {
+				if len(b.Instrs) == 0 {
+					continue
+				}
+				iff, isIf := b.Instrs[len(b.Instrs)-1].(*ssa.If)
+				if !isIf {
+					continue
+				}
+				s := newSym(L, map[string]bool{})
+				s.maxD = 0
+				t := strings.Join(s.eval(iff.Cond), "|")
+				if strings.Contains(t, "ProviderSpec.Type(") && strings.Contains(t, `"struct"`) {
+					// the true edge must not reach a supplier-map insert without returning to the loop header
+					reach := false
+					for _, b2 := range fam.Blocks {
+						for _, in := range b2.Instrs {
+							if mu, isMu := in.(*ssa.MapUpdate); isMu && strings.Contains(mu.Map.Type().String(), "fnProvider") {
+								if reachableNoLoop(iff.Block().Succs[0], b2, iff.Block().Idom()) && b2.Dominates(b2) {
+									// only inserts inside the same loop iteration matter
+									if iff.Block().Dominates(b2) && !iff.Block().Succs[1].Dominates(b2) {
+										reach = true
+									}
 								}
 							}
 						}
 					}
+					ok = !reach
 				}
-				ok = !reach
 			}
 		}
 		c.check(ok, "C02.3", "NewGraph:struct-marker-not-a-supplier", L.pos(ng.Pos()), "a Struct marker is expanded into field reads and is never itself registered as the supplier of its type", "the struct-kind branch skips the supplier-map insertion")
@@ -287,6 +296,8 @@ func runC02(c *Ctx) {
 	ruleSetVariableInitializer(c, "C02.9")
 	ruleOneNodePerProvider(c, "C02.10")
 	ruleReturnByRecordedIndex(c, "C02.11")
+	ruleChannelGuards(c, "C02.6")
+	ruleExprListsFresh(c, "C02.2")
 	ruleGuardReceivers(c, "C02.6")
 	ruleFieldAccessSync(c, "C02.6")
 	ruleSnapshotReadOnly(c, "C02.6")
